@@ -8,7 +8,6 @@ Import ListNotations.
 (* ------------------------------------------------------------------ *)
 
 Definition consistent (g : graph) (rho : nat -> bool) (u : bool) (vals : list bool) : Prop :=
-  length vals = length g /\
   forall i n, nth_error g i = Some n -> nth i vals u = node_val rho u vals i n.
 
 Lemma opt_eqb_eq a b : opt_eqb a b = true <-> a = b.
@@ -86,7 +85,7 @@ Qed.
 Lemma eval_all_consistent g rho u : wf g = true -> consistent g rho u (eval_all rho u g).
 Proof.
   intro Hwf. unfold eval_all. destruct (eval_from_spec rho u g []) as [Hlen [_ Hnth]].
-  simpl in *. split; [exact Hlen|]. intros i n Hi. rewrite (Hnth i n Hi).
+  simpl in *. intros i n Hi. rewrite (Hnth i n Hi).
   apply node_val_firstn. - eapply wf_nth; eauto.
   - rewrite Hlen. apply Nat.lt_le_incl. apply nth_error_Some. congruence.
 Qed.
@@ -106,7 +105,7 @@ Hypothesis Hcons : consistent g rho u vals.
 Definition holds (d : option nat) (neg : bool) : bool := xorb neg (dval vals u d).
 
 Lemma vals_node p n : nth_error g p = Some n -> nth p vals u = node_val rho u vals p n.
-Proof. destruct Hcons as [_ H]. apply H. Qed.
+Proof. apply Hcons. Qed.
 
 (* what [expand] guarantees semantically *)
 Lemma expand_sem p top pushed asterm contra :
@@ -482,20 +481,19 @@ Definition init_state (root : option nat) : pstate :=
   {| ps_stack := [{| tr_sig := root; tr_neg := false; tr_cd := true; tr_last := root |}];
      ps_vis := []; ps_terms := []; ps_undef := false; ps_contra := false |}.
 
-Lemma init_SInv g rho u vals root : SInv vals u root (init_state root).
+Lemma init_SInv u vals root : SInv u vals root (init_state root).
 Proof.
   constructor; simpl; try (intros; contradiction); try discriminate.
-  - intros tr [<-|[]] H. unfold holds. simpl. exact H.
+  - intros tr [<-|[]] H. unfold holds. simpl. unfold RH in H. rewrite H. reflexivity.
   - intros tr [<-|[]]. reflexivity.
   - intros tr [<-|[]]. reflexivity.
 Qed.
 
-Lemma init_TInv g root : TInv g root (init_state root).
+Lemma init_TInv (g : graph) root : TInv g root (init_state root).
 Proof.
   constructor; simpl; try (intros; contradiction); try discriminate.
   - intros tr [<-|[]]. reflexivity.
   - constructor.
-  - congruence.
   - left. eexists. split; [left; reflexivity|]. auto.
 Qed.
 
@@ -511,11 +509,11 @@ Hypothesis Hcons : consistent g rho u vals.
 Lemma visited_holds root s :
   TInv g root s -> ps_stack s = [] -> ps_undef s = false -> ps_contra s = false ->
   (forall t, In t (ps_terms s) -> lit vals u t = true) ->
-  forall p b, vis_find (ps_vis s) (Some p) = Some b -> holds vals u (Some p) b = true.
+  forall p b, vis_find (ps_vis s) (Some p) = Some b -> holds u vals (Some p) b = true.
 Proof.
   intros I Hst Hun Hco Hlits p. induction p as [p IH] using lt_wf_ind. intros b Hv.
   destruct (T_close g root s I p b Hv) as [Hk [Ht Hc]].
-  assert (Hdem : forall d n, demanded root s d n -> exists j, d = Some j /\ vis_find (ps_vis s) (Some j) = Some n).
+  assert (Hdem : forall d n, demanded s d n -> exists j, d = Some j /\ vis_find (ps_vis s) (Some j) = Some n).
   { intros d n [[tr [Hin _]]|[H|[_ H]]].
     - rewrite Hst in Hin. destruct Hin.
     - destruct d as [j|]; [eauto|]. exfalso.
@@ -548,7 +546,7 @@ Proof.
       apply andb_prop in Hdrv as [Hlt1 Hdrv]. apply andb_prop in Hdrv as [Hlt2 _].
       simpl in Hlt1, Hlt2. apply Nat.ltb_lt in Hlt1. apply Nat.ltb_lt in Hlt2.
       assert (H1 := IH j1 Hlt1 false Hj1). assert (H2 := IH j2 Hlt2 false Hj2).
-      unfold holds in H1, H2. simpl in *. rewrite H1, H2. reflexivity.
+      unfold holds in H1, H2. simpl in H1, H2. simpl. destruct (nth j1 vals u), (nth j2 vals u); simpl in *; congruence.
   - destruct (Hdem d b) as [j [-> Hj]]; [apply Hk; left; reflexivity|].
     apply andb_prop in Hdrv as [Hlt _]. simpl in Hlt. apply Nat.ltb_lt in Hlt.
     exact (IH j Hlt b Hj).
@@ -567,17 +565,17 @@ Proof.
   fold (init_state (Some r)).
   destruct (ploop fuel g (init_state (Some r))) as [s|] eqn:El; [|discriminate].
   intro H; inversion H; subst c; clear H. simpl. intro Hun.
-  destruct (ploop_inv (SInv vals u (Some r)) g (pstep_SInv g rho u vals Hcons (Some r)) fuel _ _
-              (init_SInv g rho u vals (Some r)) El) as [IS Hend].
+  destruct (ploop_inv (SInv u vals (Some r)) g (pstep_SInv g rho u vals Hcons (Some r)) fuel _ _
+              (init_SInv u vals (Some r)) El) as [IS Hend].
   destruct (ploop_inv (TInv g (Some r)) g (pstep_TInv g (Some r)) fuel _ _ (init_TInv g (Some r)) El) as [IT _].
   apply pstep_None_stack in Hend.
-  split; [|split; [apply (T_nodup g _ s IT)|apply (S_cdrv vals u _ s IS)]].
+  split; [|split; [apply (T_nodup g _ s IT)|apply (S_cdrv u vals _ s IS)]].
   unfold conj_val. simpl.
-  destruct (dval vals u (Some r)) eqn:ER.
+  simpl dval. destruct (nth r vals u) eqn:ER.
   - (* root true: no contradiction, all literals true *)
     symmetry. apply andb_true_intro. split.
-    + destruct (ps_contra s) eqn:Ec; auto. assert (X := S_contra vals u (Some r) s IS Ec). unfold RH in X. congruence.
-    + apply forallb_forall. intros t Hin. apply (S_terms vals u (Some r) s IS t Hin). exact ER.
+    + destruct (ps_contra s) eqn:Ec; auto. assert (X := S_contra u vals (Some r) s IS Ec). unfold RH in X. simpl in X. congruence.
+    + apply forallb_forall. intros t Hin. apply (S_terms u vals (Some r) s IS t Hin). exact ER.
   - (* root false: the conjunction cannot be true *)
     symmetry. apply not_true_is_false. intro Hc. apply andb_prop in Hc as [Hc Hl].
     apply negb_true_iff in Hc. rewrite forallb_forall in Hl.
@@ -586,7 +584,112 @@ Proof.
       - rewrite Hend in Hin. destruct Hin.
       - congruence. }
     assert (X := visited_holds (Some r) s IT Hend Hun Hc Hl r false Hroot).
-    unfold holds in X. simpl in X. simpl in ER. congruence.
+    unfold holds in X. simpl in X. rewrite ER in X. discriminate.
 Qed.
 
 End Final.
+
+(* ------------------------------------------------------------------ *)
+(* Termination: [fuel_bound] is always enough                           *)
+(* ------------------------------------------------------------------ *)
+
+Section Fuel.
+Variable g : graph.
+
+Definition nd (p : nat) : nat := match nth_error g p with Some n => length (drivers n) | None => 0 end.
+
+Definition uterm (vis : list (option nat * bool)) (q : nat) : nat :=
+  match vis_find vis (Some q) with Some _ => 0 | None => nd q end.
+
+Fixpoint usum (vis : list (option nat * bool)) (l : list nat) : nat :=
+  match l with [] => 0 | q :: r => uterm vis q + usum vis r end.
+
+Lemma usum_other vis k b l :
+  (forall q, In q l -> k <> Some q) -> usum ((k, b) :: vis) l = usum vis l.
+Proof.
+  induction l as [|q l IH]; intros H; simpl; auto.
+  rewrite IH by (intros; apply H; right; auto). f_equal.
+  unfold uterm. simpl. destruct (opt_eqb k (Some q)) eqn:E; auto.
+  apply opt_eqb_eq in E. exfalso. apply (H q); auto. left; reflexivity.
+Qed.
+
+Lemma usum_visit vis p b l :
+  NoDup l -> In p l -> vis_find vis (Some p) = None ->
+  usum ((Some p, b) :: vis) l + nd p = usum vis l.
+Proof.
+  induction l as [|q l IH]; intros Hnd Hin Hv; [destruct Hin|].
+  inversion Hnd as [|? ? Hni Hnd']; subst. simpl. destruct Hin as [->|Hin].
+  - rewrite usum_other by (intros q Hq E; inversion E; subst; auto).
+    unfold uterm at 1. simpl. rewrite Nat.eqb_refl. unfold uterm. rewrite Hv. lia.
+  - rewrite <- (IH Hnd' Hin Hv).
+    assert (p <> q) by (intro; subst; auto).
+    unfold uterm at 1. simpl. destruct (p =? q) eqn:E; [apply Nat.eqb_eq in E; contradiction|].
+    fold (uterm vis q). lia.
+Qed.
+
+Definition phi (s : pstate) : nat := length (ps_stack s) + usum (ps_vis s) (seq 0 (length g)).
+
+Lemma expand_pushed_le p top pushed a c :
+  expand g p top = (pushed, a, c) -> length pushed <= nd p.
+Proof.
+  unfold expand, nd. destruct (nth_error g p) as [[[]|d|d1 d2|d|]|]; intro H;
+    try (inversion H; subst; simpl; lia).
+  destruct (tr_cd top); inversion H; subst; simpl; lia.
+Qed.
+
+Lemma pstep_phi s s' : pstep g s = Some s' -> phi s' < phi s.
+Proof.
+  intro Hs. destruct (ps_stack s) as [|top rest] eqn:Est.
+  { unfold pstep in Hs; rewrite Est in Hs; discriminate. }
+  destruct (pstep_shape g s s' top rest Est Hs) as [_ Hsh]. unfold phi. rewrite Est. simpl length.
+  destruct Hsh as [[b [_ [Hvis [Hst _]]]]|[Hv [Hvis [[Hsig [Hst _]]|[p [pushed [a [c [Hsig [He [Hst _]]]]]]]]]]].
+  - rewrite Hvis, Hst. lia.
+  - rewrite Hvis, Hst, Hsig. rewrite usum_other by (intros; discriminate). lia.
+  - rewrite Hvis, Hst, Hsig. rewrite app_length, rev_length.
+    assert (Hle := expand_pushed_le p top pushed a c He).
+    destruct (Nat.lt_ge_cases p (length g)) as [Hlt|Hge].
+    + assert (Hin : In p (seq 0 (length g))) by (apply in_seq; lia).
+      rewrite Hsig in Hv.
+      assert (H := usum_visit (ps_vis s) p (tr_neg top) _ (seq_NoDup (length g) 0) Hin Hv). lia.
+    + rewrite usum_other.
+      * assert (nd p = 0).
+        { unfold nd. destruct (nth_error g p) eqn:E; auto.
+          assert (p < length g) by (apply nth_error_Some; congruence). lia. }
+        lia.
+      * intros q Hq E. inversion E; subst. apply in_seq in Hq. lia.
+Qed.
+
+Lemma ploop_enough : forall fuel s, phi s <= fuel -> ploop fuel g s <> None.
+Proof.
+  induction fuel as [|f IH]; intros s Hle; simpl.
+  - destruct (pstep g s) as [s1|] eqn:E; [|discriminate].
+    apply pstep_phi in E. lia.
+  - destruct (pstep g s) as [s1|] eqn:E; [|discriminate].
+    apply IH. apply pstep_phi in E. lia.
+Qed.
+
+Lemma usum_nil_le l : usum [] l <= fold_right (fun q acc => nd q + acc) 0 l.
+Proof. induction l; simpl; auto. unfold uterm at 1. simpl. lia. Qed.
+
+Lemma nd_sum_seq : forall (h : graph) (k : nat),
+  (forall i, i < length h -> nth_error g (k + i) = nth_error h i) ->
+  fold_right (fun q acc => nd q + acc) 0 (seq k (length h)) =
+  fold_right (fun n acc => length (drivers n) + acc) 0 h.
+Proof.
+  induction h as [|n h IH]; intros k H; simpl; auto.
+  rewrite (IH (S k)).
+  - f_equal. unfold nd. rewrite <- (Nat.add_0_r k) at 1. rewrite (H 0) by (simpl; lia). reflexivity.
+  - intros i Hi. replace (S k + i) with (k + S i) by lia. rewrite H by (simpl; lia). reflexivity.
+Qed.
+
+Theorem parse_fuel_enough root : parse g root <> None.
+Proof.
+  unfold parse, parse_fuel. destruct root as [r|]; [|discriminate].
+  fold (init_state (Some r)).
+  destruct (ploop (fuel_bound g) g (init_state (Some r))) eqn:E; [discriminate|].
+  exfalso. revert E. apply ploop_enough. unfold phi, init_state, fuel_bound. simpl.
+  assert (H1 := usum_nil_le (seq 0 (length g))).
+  rewrite (nd_sum_seq g 0) in H1 by (intros; reflexivity). lia.
+Qed.
+
+End Fuel.
